@@ -622,3 +622,12 @@ func (g *Graph) DFA(start int, accept []int) *DFA {
 	}
 	return n.determinize().Minimize()
 }
+
+// LeftQuotientLiteral: {w : k·w ∈ L(d)} (the runes of k must be classes of their own in d's alphabet).
+func LeftQuotientLiteral(d *DFA, k string) *DFA {
+	q := d.Start
+	for _, c := range d.A.ClassesOfString(k) {
+		q = int(d.Trans[q][c])
+	}
+	return &DFA{A: d.A, Trans: d.Trans, Acc: d.Acc, Start: q}
+}
